@@ -2,6 +2,9 @@ package checks
 
 import (
 	"fmt"
+	"os"
+	"path/filepath"
+	"strconv"
 	"strings"
 	"unicode/utf8"
 
@@ -372,6 +375,7 @@ func init() {
 			"distinct = distinct (input, option subset) pairs that compile",
 		Assumptions: []string{"a panic raised by a harness visitor itself would be the user's; the harness visitors never panic", "inputs are bounded at 64 KiB", "a worker killed by a fatal runtime error or a case exceeding the watchdog is reported as a violation with the case named by the progress page"},
 		Phases: []runner.Phase{
+			{Name: "fuzz-corpus", Serial: true, N: func(string) uint64 { return 1 }, Run: c04FuzzCorpus},
 			{Name: "tokens2", N: func(string) uint64 { return uint64(len(c04Tokens) * (len(c04Tokens) + 1)) }, Run: func(c *runner.Ctx, idx uint64) {
 				n := uint64(len(c04Tokens))
 				var src string
@@ -471,4 +475,72 @@ func init() {
 			return out
 		},
 	})
+}
+
+// C04Probe runs the C04 oracle on one input with the option subset and the
+// environments drawn from sel; it returns the signatures of the violations.
+func C04Probe(src string, sel uint64) []string {
+	c := runner.NewProbeCtx("C04", sel)
+	c04Check(c, src, runner.NewRng(sel))
+	var out []string
+	for _, v := range c.Violations {
+		out = append(out, v.Sig)
+	}
+	return out
+}
+
+// C04FuzzSeeds are grammatical seeds for the native fuzzer.
+func C04FuzzSeeds() []string {
+	seeds := []string{`A + B * 2`, `all(Items, {.ID > 0 and .Name matches "^a"})`, `PIt?.Next?.Name ?: "x"`, `{"a": [1, 2.5, "s"], "b": nil}`, `Ints[1:3][0] in 1..10`,
+		`FnI(A) + It.Plus(2) - len(S)`, `map(filter(1..9, {# % 2 == 0}), {# ** 2})`, `not (S contains "a") or P ? -X : +Y`, `"\u00e9\x41" + 'q' startsWith "é"`, `0x1F + 1e3 + .5 + 1_000`}
+	r := runner.NewRng(4)
+	for i := 0; i < 40; i++ {
+		g := term.NewGen(r, true)
+		func() {
+			defer func() { recover() }()
+			seeds = append(seeds, term.Print(g.Top(3+r.Intn(25)), term.PrintOpts{}))
+		}()
+	}
+	return seeds
+}
+
+// c04FuzzCorpus re-judges, deterministically, every input the native fuzz
+// stage has stored (crashers and interesting inputs) under
+// fuzz/testdata/fuzz/FuzzExpr.
+func c04FuzzCorpus(c *runner.Ctx, idx uint64) {
+	home := os.Getenv("VERIF_HOME")
+	if home == "" {
+		home = "/verif"
+	}
+	files, _ := filepath.Glob(filepath.Join(home, "fuzz", "testdata", "fuzz", "FuzzExpr", "*"))
+	if root := os.Getenv("VERIF_ROOT"); root != "" && root != home {
+		more, _ := filepath.Glob(filepath.Join(root, "fuzz-crashers", "*"))
+		files = append(files, more...)
+	}
+	for _, f := range files {
+		b, err := os.ReadFile(f)
+		if err != nil {
+			continue
+		}
+		var src string
+		var sel uint64
+		for _, line := range strings.Split(string(b), "\n") {
+			line = strings.TrimSpace(line)
+			if strings.HasPrefix(line, "string(") && strings.HasSuffix(line, ")") {
+				if u, err := strconv.Unquote(line[7 : len(line)-1]); err == nil {
+					src = u
+				}
+			}
+			if strings.HasPrefix(line, "uint64(") && strings.HasSuffix(line, ")") {
+				sel, _ = strconv.ParseUint(line[7:len(line)-1], 10, 64)
+			}
+		}
+		c.Count("fuzz_corpus_inputs_rejudged", 1)
+		c04Check(c, src, runner.NewRng(sel))
+	}
+	if n := os.Getenv("VERIF_FUZZ_EXECS"); n != "" {
+		if v, err := strconv.ParseInt(n, 10, 64); err == nil {
+			c.Count("native_fuzz_executions", v)
+		}
+	}
 }
